@@ -98,6 +98,77 @@ PROPS["C10"] = dict(
                "(validated by correspondence, 0 disagreements). Typed targets, 128-bit, map keys, raw values and streams are not yet inside the model.",
 )
 
+PARSE_RULE = ("every token sequence of length <= 3 (thorough: 4, 1/4 sampled by seed) over the 43-token structural alphabet "
+              "(brackets, separators, quote, space/newline, escape pieces, hex digits, digits, sign/point/exponent, literals and "
+              "partial literals, non-JSON bytes, control and multi-byte bytes, surrogate escapes, composite tokens); depth profiles "
+              "1,2,126..130 over array/object/alternating/random mixes; grammar-directed random documents with whitespace and "
+              "spelling variety and 3 single-byte/structural mutations each; each input parsed into Value (pv) and IgnoredAny (pi) "
+              "from &str, &[u8] and an io::Read with a random chunking schedule. Non-trivial = input longer than one byte; "
+              "distinct = distinct (op, config, input) lines.")
+
+PROPS["C09"] = dict(
+    lean_targets=["SJ.Props.C09", "SJ.Audit.C09"],
+    configs=dict(quick=["d", "ap"], thorough=["d", "ap", "fr", "po"]),
+    gen_keys=["error.", "de."],
+    rule=PARSE_RULE + " C09 adds multi-line documents (spaces turned into newlines) with 4 mutations each; the three sources' "
+         "outcomes (message, category, line, column, value) are compared with each other and with the model.",
+    trusted_base=MACHINE_TB,
+    assumptions=["io::Bytes yields the reader's bytes one at a time in order, whatever the chunking (std)",
+                 "typed targets, raw values and stream iteration are not yet inside the model"],
+    partial=["c09_str_slice for the Value target (needs: decoded strings of a UTF-8 input are UTF-8) — carried by correspondence",
+             "typed targets (|delta index| <= 1), 128-bit, raw, stream byte_offset: correspondence pending"],
+    technique="Lean 4 theorem: the byte-step machine's outcome is independent of the slice/reader source (step-wise equality + all "
+              "error sites include the offending byte) + three-source differential run against the crate",
+    level_text="Machine-checked: c09_slice_reader — for every configuration, both untyped targets and every byte string the slice and "
+               "reader sources give the same value or the same error code at the same position (hence message, category, line, "
+               "column); c09_str_slice_ignored for skipped content. The crate is run on every generated input from all three "
+               "sources with random chunkings and the outcomes are compared with each other (spec) and with the model.",
+    level_note="Trusted: Lean kernel + 3 standard axioms; extract.py; harness/driver; hand-written machine model validated by "
+               "correspondence. Two genuine position defects found by this check were repaired in /repo (fix: commits 28defde, 9343bad).",
+)
+
+PROPS["C11"] = dict(
+    lean_targets=["SJ.Props.C11", "SJ.Audit.C11"],
+    configs=dict(quick=["d"], thorough=["d", "ap", "fr"]),
+    gen_keys=["error.", "de."],
+    rule=PARSE_RULE + " C11 adds multi-line documents with 4 mutations each; the reported (line, column) of every error is checked "
+         "against an independent recursive-descent scanner (Spec.Pos) that computes the first byte after which no continuation is JSON.",
+    trusted_base=MACHINE_TB,
+    assumptions=["side-condition errors (surrogates, UTF-8, number range, depth) are only required to lie within the input"],
+    partial=["c11_earliest (the prefix before the reported byte is still viable) is not proved yet; the correspondence checks it "
+             "against Spec.Pos on every generated input"],
+    technique="Lean 4 theorems on the byte-step machine (errors are raised by the step that reads the offending byte and are stable "
+              "under extension; Eof errors only at end of input; line/column arithmetic) + independent positioned scanner as oracle",
+    level_text="Machine-checked: c11_dead (a grammar error reported at byte count idx dooms the prefix of length idx: every continuation "
+               "fails identically), c11_eof_at_end, c11_within_input, c11_line / c11_col_* (the line/column formulas of the statement), "
+               "for Value and ignored targets, all configurations and sources. Every error position the crate reports on generated "
+               "non-JSON inputs is compared with the model and with an independent first-dead-byte scanner.",
+    level_note="Trusted: Lean kernel + 3 standard axioms; extract.py; harness/driver; machine model validated by correspondence; "
+               "Spec.Pos (independent recursive-descent scanner) as executable oracle. c11_earliest not yet a theorem.",
+)
+
+PROPS["C14"] = dict(
+    lean_targets=["SJ.Props.C14", "SJ.Audit.C14"],
+    configs=dict(quick=["d"], thorough=["d", "ud", "ap"]),
+    gen_keys=["de."],
+    rule=PARSE_RULE + " C14 adds 20k (thorough 200k) random byte strings biased to JSON punctuation, and ten pathological inputs "
+         "(10^6-deep arrays open/balanced, 2*10^5-deep objects, 4 MB string, 10^6 escapes, 10^6-digit integer/fraction/exponents, "
+         "10^6-element array) each through Value (slice, reader) and IgnoredAny under catch_unwind.",
+    trusted_base=MACHINE_TB,
+    assumptions=["memory safety of compiled unsafe blocks, real stack consumption and allocator behaviour are runtime properties outside any model (partial by nature)"],
+    partial=["c14_utf8 (every returned String is valid UTF-8), c14_no_fuel (number conversion never runs out of fuel) and the shape "
+             "invariant making the remaining model fallbacks unreachable are not proved yet",
+             "typed targets / enum wrappers / stream depth restoration: not yet modelled"],
+    technique="Lean 4 invariants over the byte-step machine (stack height < 128 for every reachable state, re-dispatch happens at most "
+              "once, termination by structural recursion) + pathological-input runs of the crate under catch_unwind",
+    level_text="Machine-checked: c14_depth_bounded (every reachable state of a Value parse has at most 127 open containers, so the real "
+               "recursion is bounded), c14_limit_hit (opening the 128th container is RecursionLimitExceeded at that byte), "
+               "c14_again_once (the only unreachable!-style fallback of step is unreachable); termination by construction. The crate "
+               "is run on random bytes, mutated documents, depth profiles and megabyte/10^6-deep inputs with catch_unwind.",
+    level_note="Trusted: Lean kernel + 3 standard axioms; extract.py (remaining_depth = 128 is regenerated); harness/driver; machine "
+               "model. Partial by nature: actual memory safety and stack usage of compiled code cannot be exhibited by a model.",
+)
+
 # properties not claimed yet (kept current as checks are added)
 NOT_APPLICABLE = [
     dict(property_id=f"C{i:02d}", reason="check under construction in this build phase; not yet claimed (see DESIGN.md §11 build order)")
